@@ -1006,6 +1006,15 @@ func (x *vfrFaultFile) Readdir(n int) ([]os.FileInfo, error) {
 	return x.File.Readdir(n)
 }
 
+func vfrDropCaches(e *vfEnv) {
+	if e.n.attrCache != nil {
+		e.n.attrCache.Clear()
+	}
+	if e.n.dirCache != nil {
+		e.n.dirCache.Clear()
+	}
+}
+
 // errnos a backend may report; most have no case of their own in an errno -> nfsstat3 mapping
 var vfrErrnos = []syscall.Errno{syscall.EBUSY, syscall.ELOOP, syscall.ENOTEMPTY, syscall.EINTR, syscall.ENOMEM, syscall.ETXTBSY,
 	syscall.ENOSYS, syscall.EXDEV, syscall.EMLINK, syscall.ENOSPC, syscall.EDQUOT, syscall.EROFS, syscall.ESTALE, syscall.EIO,
@@ -1035,6 +1044,11 @@ func vfrFaultCases(h vfrHandles, i int) []vfrCase {
 		n(16, "readdir", vfArgsReaddir(h.dir, 0, zero8, 4096)), n(17, "readdirplus", vfArgsReaddirplus(h.dir, 0, zero8, 4096, 8192)),
 		n(18, "fsstat", vfArgsFH(h.root)), n(19, "fsinfo", vfArgsFH(h.root)), n(20, "pathconf", vfArgsFH(h.file)), n(21, "commit", vfArgsCommit(h.file, 0, 0)),
 		{Prog: MOUNT_PROGRAM, Vers: 3, Proc: 1, Args: mnt.Bytes(), Class: "good", Note: "mnt /d", Cred: vfRoot},
+		{Prog: MOUNT_PROGRAM, Vers: 3, Proc: 1, Args: []byte{0, 0, 0, 1, '/', 0, 0, 0}, Class: "good", Note: "mnt /", Cred: vfRoot},
+		{Prog: MOUNT_PROGRAM, Vers: 1, Proc: 1, Args: mnt.Bytes(), Class: "good", Note: "mnt v1 /d", Cred: vfRoot},
+		{Prog: MOUNT_PROGRAM, Vers: 3, Proc: 3, Args: mnt.Bytes(), Class: "good", Note: "umnt /d", Cred: vfRoot},
+		{Prog: MOUNT_PROGRAM, Vers: 3, Proc: 2, Class: "good", Note: "dump", Cred: vfRoot},
+		{Prog: MOUNT_PROGRAM, Vers: 3, Proc: 5, Class: "good", Note: "export", Cred: vfRoot},
 	}
 }
 
@@ -1132,6 +1146,9 @@ func TestVF_ReplyShape(t *testing.T) {
 				i++
 				for _, c := range vfrFaultCases(h, i) {
 					c := c
+					// the caches are emptied so that the request needs the backend from its first step on (a MNT or
+					// LOOKUP of a cached path would otherwise never reach the failing operation)
+					vfrDropCaches(e)
 					ff.arm(k, en)
 					raw := e.Call(c.Prog, c.Vers, c.Proc, c.Args, c.Cred)
 					fired := ff.disarm()
@@ -1143,6 +1160,24 @@ func TestVF_ReplyShape(t *testing.T) {
 						samples = append(samples, line)
 					}
 				}
+			}
+		}
+		// operations that run into their deadline: every per-operation timeout of the tuning options at 1 ns
+		e.n.UpdateTuningOptions(func(tn *TuningOptions) {
+			d := time.Nanosecond
+			tn.Timeouts = &TimeoutConfig{ReadTimeout: d, WriteTimeout: d, LookupTimeout: d, ReaddirTimeout: d, CreateTimeout: d,
+				RemoveTimeout: d, RenameTimeout: d, HandleTimeout: 30 * time.Second, DefaultTimeout: 30 * time.Second}
+		})
+		for rep := 0; rep < 3; rep++ {
+			i++
+			for _, c := range vfrFaultCases(h, i) {
+				c := c
+				vfrDropCaches(e)
+				raw := e.Call(c.Prog, c.Vers, c.Proc, c.Args, c.Cred)
+				c.Note += ": every operation timeout is 1 ns"
+				line := vfrLine(sch, "faulty", "handler", &c, raw.Xid, raw.Wire, raw.Err == nil && raw.Reply != nil, raw.Elapsed)
+				line["fired"] = true
+				emit(line)
 			}
 		}
 		e.Close()
